@@ -11,6 +11,7 @@ import (
 	"path/filepath"
 	"strings"
 	"sync"
+	"sync/atomic"
 	"time"
 
 	"github.com/folbricht/desync"
@@ -303,8 +304,17 @@ func run(c *harness.Ctx, i int) {
 	// were validated. Then success is not demanded any more - but a reported success still means output == blob.
 	hostile := ""
 	var midRun func()
+	cancelAtJob := int64(0)
 	if !useCLI && rng.Intn(4) == 0 {
-		switch rng.Intn(4) {
+		switch rng.Intn(5) {
+		case 4:
+			// the caller cancels while a worker holds its k-th job (often the last one): whatever is reported then,
+			// success still means output == blob
+			cancelAtJob = int64(1 + rng.Intn(len(idx.Chunks)+1))
+			if rng.Intn(2) == 0 {
+				cancelAtJob = int64(len(idx.Chunks)) // at or behind the last segment (seeds merge chunks into fewer jobs)
+			}
+			hostile = "cancelled-at-a-job"
 		case 3:
 			// a store that is not verified on reading (skip-verify) holding an object of the wrong length under one ID:
 			// the length recorded in the index is then the only thing between that object and the output
@@ -419,6 +429,19 @@ func run(c *harness.Ctx, i int) {
 	}
 
 	y := dsu.NewYielder(ymode, uint64(rng.Int63()))
+	actx, acancel := context.WithCancel(context.Background())
+	defer acancel()
+	if cancelAtJob > 0 {
+		var jobs int64
+		y.OnHit = func(point string, hn int64) {
+			// at the k-th job, and (the number of jobs is not known beforehand) at every job a little later on
+			if point == "assemble.worker.job" {
+				if j := atomic.AddInt64(&jobs, 1); j >= cancelAtJob || (j >= cancelAtJob/2 && j%3 == 0) {
+					acancel()
+				}
+			}
+		}
+	}
 	if midRun != nil {
 		var once sync.Once
 		fireAt := int64(1 + rng.Intn(3))
@@ -433,7 +456,7 @@ func run(c *harness.Ctx, i int) {
 		sigKindsExtra = "|" + hostile
 	}
 	y.Install()
-	stats, err := desync.AssembleFile(context.Background(), target, idx, fs, seeds, desync.AssembleOptions{N: n, InvalidSeedAction: desync.InvalidSeedAction(action)})
+	stats, err := desync.AssembleFile(actx, target, idx, fs, seeds, desync.AssembleOptions{N: n, InvalidSeedAction: desync.InvalidSeedAction(action)})
 	y.Remove()
 
 	if err != nil {
